@@ -30,6 +30,7 @@ def isa_base(rng, de):
         'imm16': {'operand_values': {'i16': {'type': 'numeric', 'argument': {'size': 16, 'byte_align': True}}}},
         'regs': {'operand_values': {f'r_{r}': {'type': 'register', 'register': r, 'bytecode': {'value': i + 1, 'size': 2}}
                                     for i, r in enumerate(REGS)}},
+        'rega': {'operand_values': {'only_a': {'type': 'register', 'register': 'a', 'bytecode': {'value': 1, 'size': 2}}}},
         'ind16': {'operand_values': {'in16': {'type': 'indirect_numeric', 'argument': {'size': 16, 'byte_align': True}}}},
         'rel8': {'operand_values': {'rl8': {'type': 'relative_address', 'argument': {'size': 8, 'byte_align': True}}}},
         'rel8e': {'operand_values': {'rl8e': {'type': 'relative_address', 'argument': {'size': 8, 'byte_align': True, 'min': -100, 'max': 100},
@@ -43,6 +44,7 @@ def isa_base(rng, de):
         'imm8u': [{'id': 'i8u', 't': 'numeric', 'arg': A8u}],
         'imm16': [{'id': 'i16', 't': 'numeric', 'arg': A16}],
         'regs': [{'id': f'r_{r}', 't': 'register', 'r': r, 'code': {'v': i + 1, 'n': 2}} for i, r in enumerate(REGS)],
+        'rega': [{'id': 'only_a', 't': 'register', 'r': 'a', 'code': {'v': 1, 'n': 2}}],
         'ind16': [{'id': 'in16', 't': 'indirect_numeric', 'arg': A16}],
         'rel8': [{'id': 'rl8', 't': 'relative_address', 'arg': A8}],
         'rel8e': [{'id': 'rl8e', 't': 'relative_address', 'arg': A8, 'min': -100, 'max': 100, 'fromEnd': True}],
@@ -103,10 +105,17 @@ def gen_case(rng, tier):
     little = de == 'little'
     nvar = rng.choice([1, 1, 2, 3])
     mac_y, mac_m, var_kinds = [], [], []
+    overlap = rng.random() < 0.15
+    if overlap:
+        nvar = rng.choice([2, 3])
     for vi in range(nvar):
         kinds = [rng.choice(['num', 'reg', 'ind']) for _ in range(rng.choice([0, 1, 1, 2]))]
-        sets = [{'num': 'imm16', 'reg': 'regs', 'ind': 'ind16'}[k] for k in kinds]
-        steps = steps_for(rng, kinds)
+        if overlap:
+            # a special case first (register a only), the general form (any register) after it: which one an invocation
+            # gets depends on the definition order only, never on what was invoked before
+            kinds = [['rega'], ['reg'], ['num']][vi]
+        sets = [{'num': 'imm16', 'reg': 'regs', 'ind': 'ind16', 'rega': 'rega'}[k] for k in kinds]
+        steps = steps_for(rng, ['reg' if k == 'rega' else k for k in kinds])
         y = {'instructions': [t for t, _ in steps]}
         m = {'operands': {'opcode': {'v': 0, 'n': 1}}, 'steps': [s for _, s in steps]}
         if kinds == ['num'] and rng.random() < 0.5:
@@ -137,9 +146,15 @@ def gen_case(rng, tier):
     base = rng.choice([0, 0, 16, 300])
     pre = rng.randint(0, 3)
     invs = []
-    for _ in range(2 if twin else rng.choice([1, 1, 2])):
+    if overlap:
+        twin = False
+    for _ in range(2 if (twin or overlap) else rng.choice([1, 1, 2])):
         kinds = rng.choice(var_kinds)
         forms, texts = [], []
+        if overlap:
+            r = gen.rcase(rng, rng.choice(['b', 'sp', 'a'] if not invs else ['a', 'a', 'b']))
+            invs.append({'forms': [{'f': 'plain', 'e': ('label', r)}], 'texts': [r]})
+            continue
         if twin and invs:
             # the same invocation again, its operand text differing only in letter case / blanks: same registers, other constants
             first = invs[0]
@@ -158,8 +173,8 @@ def gen_case(rng, tier):
             invs.append({'forms': forms, 'texts': texts})
             continue
         for k in kinds:
-            if k == 'reg':
-                r = gen.rcase(rng, rng.choice(REGS))
+            if k in ('reg', 'rega'):
+                r = gen.rcase(rng, 'a' if k == 'rega' else rng.choice(REGS))
                 forms.append({'f': 'plain', 'e': ('label', r)})
                 texts.append(r)
             else:
@@ -177,7 +192,7 @@ def gen_case(rng, tier):
         if rng.random() < 0.05 and forms:
             forms.pop(); texts.pop()
         invs.append({'forms': forms, 'texts': texts})
-    return {'isa': isa, 'consts': consts, 'base': base, 'pre': pre, 'invs': invs, 'twin': twin,
+    return {'isa': isa, 'consts': consts, 'base': base, 'pre': pre, 'invs': invs, 'twin': twin, 'overlap': overlap,
             'model_base': {'op': 'macro', 'regs': REGS, 'gs': 0, 'ge': 65535, 'instrs': instrs_m, 'macro': mac_m},
             'templates': [[t for t in y['instructions']] for y in mac_y], 'seed': rng.randrange(1 << 30)}
 
@@ -229,7 +244,8 @@ def expand_text(case, inv, variant):
 
 
 def judge(case, ir, mrs):
-    tags = ['invocations=%d' % len(case['invs'])] + (['case-twin-invocations'] if case.get('twin') else [])
+    tags = ['invocations=%d' % len(case['invs'])] + (['case-twin-invocations'] if case.get('twin') else []) + \
+        (['overlapping-macro-variants'] if case.get('overlap') else [])
     det = f'asm={program(case)!r} macros={case["isa"]["macros"]}'[:1500]
     if ir['status'] == 'timeout':
         return {'verdict': Verdict.VIOLATION, 'detail': 'no termination; ' + det, 'tags': tags}
